@@ -11,6 +11,20 @@ finite holiday list).
 import RateslibModel.Model.Dates
 namespace Rateslib
 
+/-- Rust's `char::to_lowercase` on the code points the model covers exactly: Basic Latin and Latin-1
+Supplement (U+0000–U+00FF) and the Cyrillic block up to U+045F, where every cased capital maps to ONE code
+point at a fixed offset and every other code point maps to itself.  Cased letters elsewhere (Greek with its
+context-dependent final sigma, the one-to-many `İ`, …) are outside the modelled domain; the correspondence run
+sweeps every code point of the two ranges, alone and in context (`lower` lines). -/
+def lowerChar (c : Char) : Char :=
+  let n := c.toNat
+  if (0x41 ≤ n ∧ n ≤ 0x5A) ∨ (0xC0 ≤ n ∧ n ≤ 0xDE ∧ n ≠ 0xD7) ∨ (0x410 ≤ n ∧ n ≤ 0x42F) then Char.ofNat (n + 32)
+  else if 0x400 ≤ n ∧ n ≤ 0x40F then Char.ofNat (n + 80)
+  else c
+
+/-- `str::to_lowercase` (used by `Ccy::try_new` and `NamedCal::try_new`) -/
+def lowerStr (s : String) : String := s.map lowerChar
+
 /-- The three primitive predicates of the `DateRoll` trait. -/
 structure DR where
   isWeekday : Int → Bool
@@ -249,10 +263,10 @@ def lookupAll (table : String → Option Cal) : List String → Option (List Cal
 def parseCals (table : String → Option Cal) (s : String) : Option (List Cal) :=
   lookupAll table (s.splitOn ",")
 
-/-- `NamedCal::try_new` (calendar.rs:116-144).  Rust's Unicode `to_lowercase` is modelled as
-ASCII lower-casing.  Returns the stored (lower-cased) name and the union calendar. -/
+/-- `NamedCal::try_new` (calendar.rs:116-144).  Rust's Unicode `to_lowercase` is modelled by
+`lowerStr`.  Returns the stored (lower-cased) name and the union calendar. -/
 def namedTryNew (table : String → Option Cal) (name : String) : Outcome (String × UnionCal) :=
-  let name_ := name.toLower
+  let name_ := lowerStr name
   match name_.splitOn "|" with
   | [p0] =>
     match parseCals table p0 with
